@@ -155,6 +155,9 @@ def describe_lib(name, args):
 
 def examine(case):
     q, ast, doc = case["q"], case["ast"], case["doc"]
+    if case.get("exotic"):
+        from vlib.gen import values as V
+        doc = V.exotic(doc, case["exotic"])
     log = []
     e = ev.Evaluator(REG, call_log=log)
     expected = e.query(ast, doc)
@@ -205,7 +208,35 @@ def run_shard(spec, shard):
         g.evalr = ev.Evaluator(reg)
         base = g.guided_query(doc, 0, 2, hit_p=0.9)
         # the filter under test: built around at least one call, guided by a node the base reaches
-        seg = diff.guided_filter_segment(r, g, base[2], doc, registry=reg, need="call", tries=10)
+        if r.random() < 0.15:
+            # the same function called twice in one filter with look-alike arguments (1 / true / 1.0 / "1" ...)
+            cands = [n for n in chosen if n in SIGS and SIGS[n][0] and SIGS[n][0][0] == VALUE and len(SIGS[n][0]) == 1]
+            if not cands:
+                return
+            fn = r.choice(cands)
+            ret = SIGS[fn][1]
+            pairs = [(1, True), (0, False), (1, 1.0), (1, "1"), (0, None), ("", None), (0, -0.0), ("a", "A"), (True, "true")]
+            x, y = r.choice(pairs)
+            if r.random() < 0.5:
+                x, y = y, x
+
+            def lit(v):
+                return ["lit", v] if not isinstance(v, (int, float)) or isinstance(v, bool) else ["lit", v, repr(v)]
+
+            def use(arg):
+                c = ["call", fn, [arg]]
+                if ret == VALUE:
+                    return ["cmp", r.choice(["==", "!="]), c, lit(r.choice([x, y]))]
+                if ret == NODES:
+                    return ["test", c] if r.random() < 0.5 else ["cmp", "==", ["call", "count", [c]], ["lit", 0, "0"]]
+                return ["test", c] if r.random() < 0.6 else ["not", ["test", c]]
+
+            expr = [r.choice(["and", "or"]), [use(lit(x)), use(lit(y))]]
+            if r.random() < 0.3:
+                expr[1].append(["test", ["q", "@", []]])
+            seg = ["child", [["filter", expr]]]
+        else:
+            seg = diff.guided_filter_segment(r, g, base[2], doc, registry=reg, need="call", tries=10)
         if seg is None:
             return
         ast = ["q", "$", base[2] + [seg]]
@@ -223,6 +254,8 @@ def run_shard(spec, shard):
             from vlib.runner import HarnessError
             raise HarnessError(f"generator/parser disagreement for {text!r}: {res!r} {typecheck.check(ast, REG)}")
         case = {"q": text, "ast": ast, "doc": doc}
+        if r.random() < 0.08:
+            case["exotic"] = r.randrange(1, 2**31)
         log = []
         ev.Evaluator(REG, call_log=log).query(ast, doc)
         nt = False
